@@ -83,7 +83,7 @@ func (x *Exec) execInstr(fr *Frame, st *State, in ssa.Instruction) {
 		case *types.Map:
 			m := x.term(fr, i.X)
 			k := x.toTerm(x.val(fr, i.Index), xt.Key())
-			dn, ds, vn, vs := te.mapHeaps(xt)
+			dn, ds, vn, vs := te.mapHeaps(xt, x.regionOf(i.X))
 			dom := mkSelect(mkSelect(st.H(dn, ds), m), k)
 			raw := mkSelect(mkSelect(st.H(vn, vs), m), k)
 			v := mkIte(dom, raw, te.zero(xt.Elem()))
@@ -110,9 +110,11 @@ func (x *Exec) execInstr(fr *Frame, st *State, in ssa.Instruction) {
 	case *ssa.MakeMap:
 		mt := i.Type().Underlying().(*types.Map)
 		r := x.newRef(st)
-		dn, ds, _, _ := te.mapHeaps(mt)
+		reg := x.regionOf(i)
+		dn, ds, _, _ := te.mapHeaps(mt, reg)
 		st.setH(dn, mkStore(st.H(dn, ds), r, mkConstArr(ds.Elem, tFalse)))
-		st.setH("ML:"+te.typeStr(mt), mkStore(st.H("ML:"+te.typeStr(mt), arraySort(sortInt, sortInt)), r, mkInt(0)))
+		ln, ls := te.mapLenHeap(mt, reg)
+		st.setH(ln, mkStore(st.H(ln, ls), r, mkInt(0)))
 		fr.regs[i] = r
 	case *ssa.MakeChan:
 		r := x.newRef(st)
@@ -147,11 +149,15 @@ func (x *Exec) execInstr(fr *Frame, st *State, in ssa.Instruction) {
 		k := x.toTerm(x.val(fr, i.Key), mt.Key())
 		v := x.toTerm(x.val(fr, i.Value), mt.Elem())
 		x.assert(st, "nil", "map update "+x.src(i), mkNot(mkEq(m, mkInt(0))), i.Pos(), nil)
-		x.mapStore(st, mt, m, k, v, true, i.Pos())
+		x.mapStore(st, mt, x.regionOf(i.Map), m, k, v, true, i.Pos())
 	case *ssa.Call:
 		fr.regs[i] = x.execCall(fr, st, i.Common(), i, i.Type())
 	case *ssa.Defer:
 		if x.inLoop(fr, i.Block()) {
+			if sc := i.Call.StaticCallee(); sc != nil && noopLib[fullName(sc)] {
+				x.note("deferred call without effect on modelled state ignored: " + fullName(sc))
+				return
+			}
 			x.unsup("defer inside a loop")
 		}
 		// evaluate operands now
@@ -183,7 +189,7 @@ func (x *Exec) execInstr(fr *Frame, st *State, in ssa.Instruction) {
 	case *ssa.Range:
 		switch xt := i.X.Type().Underlying().(type) {
 		case *types.Map:
-			fr.regs[i] = &IterVal{Map: x.term(fr, i.X), MTyp: xt}
+			fr.regs[i] = &IterVal{Map: x.term(fr, i.X), MTyp: xt, Region: x.regionOf(i.X)}
 		default:
 			x.unsup("range over %v", i.X.Type())
 		}
@@ -195,7 +201,7 @@ func (x *Exec) execInstr(fr *Frame, st *State, in ssa.Instruction) {
 		okb := fresh("next.ok", sortBool)
 		k := fresh("next.k", te.sortOf(it.MTyp.Key()))
 		x.assumeTyped(st, it.MTyp.Key(), k)
-		dn, ds, vn, vs := te.mapHeaps(it.MTyp)
+		dn, ds, vn, vs := te.mapHeaps(it.MTyp, it.Region)
 		x.assume(st, mkImp(okb, mkSelect(mkSelect(st.H(dn, ds), it.Map), k)))
 		v := mkSelect(mkSelect(st.H(vn, vs), it.Map), k)
 		x.assumeTyped(st, it.MTyp.Elem(), v)
@@ -214,9 +220,46 @@ func (x *Exec) inLoop(fr *Frame, b *ssa.BasicBlock) bool {
 	return false
 }
 
-func (x *Exec) mapStore(st *State, mt *types.Map, m, k, v *Term, present bool, pos token.Pos) {
+// regionOf: the owning struct field ("Struct.field") of a map value. Map values must be read
+// directly from a field (or be a make() whose result is stored into one).
+func (x *Exec) regionOf(v ssa.Value) string {
+	switch u := v.(type) {
+	case *ssa.UnOp:
+		if fa, ok := u.X.(*ssa.FieldAddr); ok && u.Op == token.MUL {
+			pt := derefType(fa.X.Type())
+			if sty := structOf(pt); sty != nil {
+				return x.env.te.namedKey(pt) + "." + sty.Field(fa.Field).Name()
+			}
+		}
+	case *ssa.MakeMap:
+		reg := ""
+		for _, r := range *u.Referrers() {
+			switch s := r.(type) {
+			case *ssa.Store:
+				if fa, ok := s.Addr.(*ssa.FieldAddr); ok && s.Val == u {
+					pt := derefType(fa.X.Type())
+					if sty := structOf(pt); sty != nil {
+						reg = x.env.te.namedKey(pt) + "." + sty.Field(fa.Field).Name()
+						continue
+					}
+				}
+				x.unsup("map created by make() is stored somewhere other than a struct field")
+			case *ssa.DebugRef:
+			default:
+				x.unsup("map created by make() escapes other than into a struct field (%T)", r)
+			}
+		}
+		if reg != "" {
+			return reg
+		}
+	}
+	x.unsup("map value is not read directly from a struct field (needed for the map region discipline)")
+	return ""
+}
+
+func (x *Exec) mapStore(st *State, mt *types.Map, region string, m, k, v *Term, present bool, pos token.Pos) {
 	te := x.env.te
-	dn, ds, vn, vs := te.mapHeaps(mt)
+	dn, ds, vn, vs := te.mapHeaps(mt, region)
 	x.checkWrite(st, dn, m, pos)
 	dh := st.H(dn, ds)
 	was := mkSelect(mkSelect(dh, m), k)
@@ -225,8 +268,8 @@ func (x *Exec) mapStore(st *State, mt *types.Map, m, k, v *Term, present bool, p
 		vh := st.H(vn, vs)
 		st.setH(vn, mkStore(vh, m, mkStore(mkSelect(vh, m), k, v)))
 	}
-	ln := "ML:" + te.typeStr(mt)
-	lh := st.H(ln, arraySort(sortInt, sortInt))
+	ln, ls := te.mapLenHeap(mt, region)
+	lh := st.H(ln, ls)
 	cur := mkSelect(lh, m)
 	var nl *Term
 	if present {
